@@ -12,13 +12,33 @@ def rb(rng, n):
     return bytes(rng.randrange(256) for _ in range(n))
 
 
-def scenario_run(ctx, stream, name, make_reply, hexform, pre_auth):
+def special_bytes(rng, n, style):
+    """byte strings a conversion heuristic could mistake for something else"""
+    if style == "ascii_hex":
+        return bytes(rng.choice(b"0123456789abcdefABCDEF") for _ in range(n))
+    if style == "ascii_hex_spaces":
+        return bytes(rng.choice(b"0123456789abcdef  ") for _ in range(n))
+    if style == "printable":
+        return bytes(rng.randrange(0x20, 0x7F) for _ in range(n))
+    if style == "zeros":
+        return bytes(n)
+    if style == "ff":
+        return b"\xff" * n
+    if style == "digits":
+        return bytes(rng.choice(b"0123456789") for _ in range(n))
+    return rb(rng, n)
+
+
+def scenario_run(ctx, stream, name, make_reply, hexform, pre_auth, cred_style=None):
     """make_reply(device, key, nonce, counter) -> bytes | None (None = genuine via Spec through the driver).
     pre_auth: first authenticate genuinely (so token/key are stored), then re-authenticate with the
     scripted reply using NEW credentials: stored ones must not be replaced on failure."""
     rng = ctx.rng
     token, key = rb(rng, 64), rb(rng, 32)
     token2, key2 = rb(rng, 64), rb(rng, 32)
+    if cred_style is not None:
+        token, key = special_bytes(rng, 64, cred_style[0]), special_bytes(rng, 32, cred_style[1])
+        token2, key2 = special_bytes(rng, 64, cred_style[0]), special_bytes(rng, 32, cred_style[1])
     dev = simdev.SimDevice(version=3, device_id=99, token=token, key=key)
     res = {}
     nonce = rb(rng, 32)
@@ -67,6 +87,8 @@ def scenario_run(ctx, stream, name, make_reply, hexform, pre_auth):
     except Exception as e:  # noqa
         res["out"] = "err:py:" + type(e).__name__ + "(outer)"
     inp = {"reply": name, "hexform": hexform, "pre_auth": pre_auth}
+    if cred_style is not None:
+        inp.update(cred_style=list(cred_style), token=hx(token), key=hx(key))
     genuine = res.get("genuine", False)
     if genuine:
         ok = res.get("out") == "ok" and res.get("send_ok") and res.get("tk_after") == res.get("expect_creds")
@@ -229,6 +251,15 @@ def run(ctx):
         for pre in (False, True):
             for _ in range(3 if not thorough else 30):
                 scenario_run(ctx, "genuine", "genuine", lambda d, k, n, c: None, hexform, pre)
+    # credentials of every FORM: bytes that happen to be ASCII hex digits / digits / printable text / contain spaces, all
+    # zero, all ff - given as bytes and as hex strings: a genuine handshake must succeed with exactly these bytes
+    styles = ["ascii_hex", "ascii_hex_spaces", "printable", "zeros", "ff", "digits", "random"]
+    for ts in styles:
+        for ks in styles:
+            if not thorough and ts != ks and "random" not in (ts, ks):
+                continue
+            for hexform in (False, True):
+                scenario_run(ctx, "credential_forms", "genuine", lambda d, k, n, c: None, hexform, False, cred_style=(ts, ks))
     for _ in range(4 if not thorough else 40):
         repeat_scenario(ctx, rng)
     # every single-bit flip of the 64-byte reply payload
